@@ -66,14 +66,6 @@ theorem rot_getElem? (l : List α) (i : Nat) (h : i < l.length) :
       rw [this]
       simp [List.getElem?_append_left h3]
 
-/-- Row `r` of a file written by `from_missing_values` (its stamp cells sit at collection index
-    `(r + 1) % N`) carries month and day of day-of-year `r / 24 + 1` and hour `r % 24 + 1`. -/
-def missingStampOk (leap : Bool) (r : Nat) : Bool :=
-  match missingStamp leap ((r + 1) % hoursInYear leap), Cal.fromDoy leap ((r / 24 + 1 : Nat) : Int) with
-  | .ok (m, d, h), .ok dt => m == dt.month && d == dt.day && h == r % 24 + 1
-  | _, _ => false
-
-
 /-! ### transposition -/
 
 theorem transp_eq_range (n : Nat) (t : List (List α)) :
